@@ -1172,7 +1172,9 @@ def rule_P4_sampler(ctx, rid='P4', rid6='P6'):
                     continue
                 firsts = [i for i in incr if cfg.can_reach(a, i, avoid=(incr - {i}),
                                                            edge_ok=edge_ok_for(a))]
-                if firsts and all(cfg.must_pass(a, i, {t.id}, edge_ok=edge_ok_for(a)) and
+                # every way from the batch to an incremental update leads through the
+                # first-batch test - or through some other full write (the end of exploration)
+                if firsts and all(cfg.must_pass(a, i, {t.id} | full, edge_ok=edge_ok_for(a)) and
                                   all(x in full or
                                       cfg.must_pass(x, i, full, edge_ok=edge_ok_for(a))
                                       for x in tsucc) for i in firsts):
